@@ -4,8 +4,8 @@ from wire import hx, opt, lst
 from chancommon import KIND, CASE_WALL, run_impl, shrink_candidates, classify_common  # noqa: F401
 
 SPECS = ["C03"]
-THEOREMS = ["C03.riTake_spec", "C03.read_some_spec", "C03.read_one_spec", "C03.readlineLoop_spec", "C03.writeLoop_spec", "C03.write_spec", "C03.sendLoop_spec", "C03.send_spec", "C03.op_spec", "ChanCase.keeps", "ChanCase.conservation_run", "C03.case_spec"]
-LEAN_MODULES = ["TbotVerif.Props.ChanCase"]
+THEOREMS = ["C03.riTake_spec", "C03.read_some_spec", "C03.read_one_spec", "C03.readlineLoop_spec", "C03.writeLoop_spec", "C03.write_spec", "C03.sendLoop_spec", "C03.send_spec", "C03.op_spec", "ChanCase.keeps", "ChanCase.conservation_run", "C03.case_spec", "C03.send_rb_complete", "C03.sendline_rb_complete", "C03.send_timeout_justified", "C03.sendline_timeout_justified", "C03.send_no_timeout_after_echo", "C03.send_no_rb_no_read", "C03.sendline_no_rb_no_read", "C03.c03_rejects_timeout_after_echo", "C03.readBack_eq", "C03.readBack_model"]
+LEAN_MODULES = ["TbotVerif.Props.ChanCase", "TbotVerif.Props.C03Send"]
 QUICK_N, THOROUGH_N = 6000, 100000
 QUICK_BUDGET, THOROUGH_BUDGET = 40, 900
 RULE = ("random histories (1-12 ops) of read(n)/read()/read_iter(max,k)/readline/write/send/sendline/sendcontrol with "
